@@ -17,7 +17,7 @@ PROP = "C08"
 STAGES = ["none", "bad_owner_signature", "expired", "missing_link", "unauthorised_link", "corrupt_link_signature",
           "threshold_unmet", "disagreeing_links", "failing_step_rule", "failing_step_rule_match_from_inspection",
           "failing_step_rule_match_from_undefined", "failing_last_step_rule", "sublayout_expired", "sublayout_missing_link",
-          "sublayout_rule"]
+          "sublayout_rule", "surplus_sublayout_missing_link", "surplus_sublayout_expired"]
 OUTCOMES = ["exit0", "exit1", "exit2", "exit127", "exit255", "killed", "not_found", "creates", "modifies", "deletes"]
 RULESETS = ["none", "satisfied", "violated_materials", "violated_products"]
 FUNC = ["ed4", "ed5", "ed6", "edp2"]
@@ -66,7 +66,12 @@ def build_cell(W, rng, stage, outcome, rs, ninsp, level, keyset=FUNC, random_ext
              scen.mk_step("package", 1, [W.kid(kc)], [], [["MATCH", "*", "WITH", "PRODUCTS", "FROM", "build"], ["ALLOW", "*"]], [["ALLOW", "*"]])]
     if stage == "failing_last_step_rule":
         steps[1]["expected_products"] = [["MATCH", "*", "WITH", "PRODUCTS", "FROM", "insp0"], ["DISALLOW", "*"]]
-    sub_stage = stage if stage.startswith("sublayout_") else None
+    surplus = stage.startswith("surplus_")
+    if surplus:
+        # the delegated step has a second authorised functionary who supplies a perfectly good plain link: the step
+        # has enough evidence even without the failing sub-layout, which must nevertheless be fatal
+        steps[1]["pubkeys"] = [W.kid(kc), W.kid(kd)]
+    sub_stage = stage.replace("surplus_", "") if (stage.startswith("sublayout_") or surplus) else None
     table = [ka, kb, kc, kd]
     expires = "2020-01-01T00:00:00Z" if stage == "expired" else None
     reqs = []
@@ -94,6 +99,9 @@ def build_cell(W, rng, stage, outcome, rs, ninsp, level, keyset=FUNC, random_ext
             d["products"]["out/o0"] = scen.digest(0x99)
         idx[("build", k)] = len(reqs)
         reqs.append((d, [k], "new"))
+    if surplus:
+        idx[("package", kd)] = len(reqs)
+        reqs.append((l_pkg, [kd], "new"))
     if sub_stage:
         idx["inner_layout"] = len(reqs)
         reqs.append((inner, [kc], "new"))
@@ -127,6 +135,8 @@ def build_cell(W, rng, stage, outcome, rs, ninsp, level, keyset=FUNC, random_ext
             if stage == "threshold_unmet" and k == kb:
                 continue
             files[prefix + f"build.{W.pfx(k)}.link"] = scen.dumps(lk)
+        if surplus:
+            files[prefix + f"package.{W.pfx(kd)}.link"] = scen.dumps(w(("package", kd)))
         if sub_stage:
             files[prefix + f"package.{W.pfx(kc)}.link"] = scen.dumps(w("inner_layout"))
             if sub_stage != "sublayout_missing_link":
@@ -245,7 +255,7 @@ def main(ctx):
                           "levels": ["top", "delegated"], "cells": ncells}
     return common.finish(
         PROP, ctx.tier, ctx.seed, res, t0=ctx.t0, level="fault_enumeration",
-        rule="complete grid failing stage (15) x inspection outcome (10) x inspection rule set (4) x 1-2 inspections x "
+        rule="complete grid failing stage (17) x inspection outcome (10) x inspection rule set (4) x 1-2 inspections x "
              "{top-level, delegated layout}; every cell is one real in_toto_verify call in a fresh working directory, "
              "observed through the inspection command's own sentinel/snapshot files; every cell is non-trivial and "
              "distinct; thorough repeats the grid with other key types",
